@@ -273,6 +273,7 @@ func (g *c17Engine) run(tp *toolPlan) (*toolVerdict, map[string]int, error) {
 		}
 		stats["lists_verified"]++
 		stats["words_verified"] += len(words)
+		stats["zz_digest"] ^= int(strDigest(strings.Join(words, "\n"))>>1) + l
 		if tp.Prestate[name] == "longer" {
 			stats["truncation_needed_and_happened"]++
 		}
@@ -566,6 +567,7 @@ func CheckC17(e *Env) (int, error) {
 	scripts := map[string]int{}
 	var samples []interface{}
 	runs := 0
+	var od OrderedDigest
 	e.Logf("C17: %d tool runs (map ranges rewritten: %d, uncontrolled ranges: %d)", n, rep.MapRanges, rep.OtherRanges)
 	e.Parallel(n, func(i int) {
 		tp := genToolPlan(plan.Derive(e.Seed, "C17/run", uint64(i)), i)
@@ -579,6 +581,12 @@ func CheckC17(e *Env) (int, error) {
 			return
 		}
 		runs++
+		vd := ""
+		if v != nil {
+			vd = v.Class
+		}
+		od.Add(i, uint64(st["zz_digest"])^strDigest(vd))
+		delete(st, "zz_digest")
 		addMap(tot, st)
 		if v != nil {
 			viols = append(viols, g.violation(tp, v))
@@ -648,6 +656,7 @@ func CheckC17(e *Env) (int, error) {
 		"uncontrolled_ranges": rep.OtherRanges,
 		"schedule_space_note": "10! fetch orders x 5^10 pre-states: real but shallow; most of the strength is the workload through the simulated upstream",
 		"raw_violations":      len(viols),
+		"outcome_digest":      od.String(),
 	}
 	if err := e.WriteEvidence("C17", "exploration", cov, []string{
 		"go/parser, go/types and strconv.Unquote decide what a generated file 'contains'",
